@@ -207,8 +207,8 @@ func runC09(c *core.Ctx) {
 				req[col] = true
 			}
 			for _, col := range t.Header {
-				if req[col] || !r.Chance(1, 5) {
-					continue
+				if req[col] || col == "agency_id" || !r.Chance(1, 5) {
+					continue // agency_id is required as soon as there are several agencies: without it the base rows are no longer valid
 				}
 				if t.Name == "stop_times.txt" && (col == "arrival_time" || col == "departure_time") {
 					other := map[string]string{"arrival_time": "departure_time", "departure_time": "arrival_time"}[col]
